@@ -54,10 +54,19 @@ def gen_cases(tier, seed):
                 for q in range(nseg):
                     xy.append([c[0] + s * (x0 + (x1 - x0) * q / nseg), c[1] + s * (y0 + (y1 - y0) * q / nseg)])
             dev["holes"][0] = {"name": "hole0", "kind": "points", "xy": xy, "nonconvex": True}
+        if nh and k % 4 in (1, 2):
+            # a hole outline that is "second hand": the polygon (or what it was copied from) served as a terminal before,
+            # which leaves Polygon.mesh == False on it. It is a hole of THIS device all the same.
+            dev["holes"][-1]["mesh_flag"] = False
         post = [None, "remesh", "translate_inplace", "translation_context", "roundtrip", "remesh", None, "translate_inplace"][k % 8]
         if k % 3 == 0:
             # device away from the origin
             dev["offset"] = [float(rng.uniform(-30, 30)) * dev["layer"]["xi"], float(rng.uniform(-30, 30)) * dev["layer"]["xi"]]
+        if k % 6 == 4:
+            # ... and far away from it (chip / wafer coordinates): 5e4 .. 1e6 coherence lengths
+            far = 10.0 ** float(rng.uniform(4.7, 6.0)) * dev["layer"]["xi"]
+            ang_ = float(rng.uniform(0, 2 * np.pi))
+            dev["offset"] = [far * float(np.cos(ang_)), far * float(np.sin(ang_))]
         if k % 5 == 1:
             # no refinement requested: the mesh density comes from the outline vertices only
             dev["mesh"]["max_edge_length"] = 0.0
@@ -103,6 +112,14 @@ def check_mesh(cx, dev, where):
     film = np.asarray(dev.film.points, dtype=float) / xi
     holes = [np.asarray(h.points, dtype=float) / xi for h in dev.holes]
     scale = float(np.ptp(film, axis=0).max())
+    # the geometry is translation invariant: the oracle works in coordinates relative to the mesh centroid, so that its own
+    # arithmetic does not lose digits for a device far from the origin; the data themselves carry rounding eps * |coordinate|
+    ctr0 = sites.mean(axis=0)
+    mag = float(np.abs(sites).max())
+    far = 16 * np.finfo(float).eps * mag
+    sites = sites - ctr0
+    film = film - ctr0
+    holes = [h - ctr0 for h in holes]
     domain = SPoly(film[:-1], [h[:-1] for h in holes])
     tol = 1e-9 * scale
     # ---- triangles
@@ -132,11 +149,11 @@ def check_mesh(cx, dev, where):
         cx.viol("edge_list_wrong", {"where": where, "n_mesh": int(len(em.edges)), "n_ref": int(len(edges))})
         return
     d = sites[edges[:, 1]] - sites[edges[:, 0]]
-    for name, got, want in (("directions", em.directions, d), ("edge_lengths", em.edge_lengths, np.hypot(d[:, 0], d[:, 1])), ("centers", em.centers, sites[edges].mean(axis=1)),
+    for name, got, want in (("directions", em.directions, d), ("edge_lengths", em.edge_lengths, np.hypot(d[:, 0], d[:, 1])), ("centers", np.asarray(em.centers) - ctr0, sites[edges].mean(axis=1)),
                             ("normalized_directions", em.normalized_directions, d / np.hypot(d[:, 0], d[:, 1])[:, None])):
         err = float(np.max(np.abs(np.asarray(got) - want)))
-        cx.worst(name, err / (1e-11 * scale))
-        if np.asarray(got).shape != want.shape or err > 1e-11 * scale:
+        cx.worst(name, err / (1e-11 * scale + far))
+        if np.asarray(got).shape != want.shape or err > 1e-11 * scale + far:
             cx.viol("edge_" + name + "_not_from_site_pairs", {"where": where, "max_err": err})
     # ---- boundary
     cx.cnt("boundary_checks")
@@ -232,8 +249,8 @@ def check_mesh(cx, dev, where):
         eligible += 1
         cx.cnt("voronoi_area_checks")
         r = abs(areas[i] - ca.area) / ca.area
-        cx.worst("voronoi_area_rel_over_gate", r / 1e-8)
-        if r > 1e-8:
+        cx.worst("voronoi_area_rel_over_gate", r / (1e-8 + 50 * far))
+        if r > 1e-8 + 50 * far:
             cx.viol("cell_area_ne_clipped_voronoi_area", {"where": where, "site": i, "mesh_area": float(areas[i]), "voronoi_area": float(ca.area), "boundary_site": bool(i in set(bsites.tolist()))})
         # faces
         for k in inc_edges[i]:
@@ -256,8 +273,8 @@ def check_mesh(cx, dev, where):
             checked_edges.add(k)
             cx.cnt("dual_length_checks")
             err = abs(dual[k] - face_len)
-            cx.worst("dual_length_abs_over_gate", err / (1e-7 * scale))
-            if err > 1e-7 * scale:
+            cx.worst("dual_length_abs_over_gate", err / (1e-7 * scale + 50 * far))
+            if err > 1e-7 * scale + 50 * far:
                 cx.viol("dual_length_ne_clipped_voronoi_face", {"where": where, "edge": [a_, b_], "mesh_dual_length": float(dual[k]), "voronoi_face_length": float(face_len),
                                                                 "boundary_edge": bool(counts[k] == 1)})
     cx.C["sites_total"] = cx.C.get("sites_total", 0) + n
@@ -266,7 +283,7 @@ def check_mesh(cx, dev, where):
     info = {t.name: t for t in dev.terminal_info()} if dev.terminals else {}
     for term in dev.terminals:
         cx.cnt("terminal_checks")
-        tp = np.asarray(term.points, dtype=float) / xi
+        tp = np.asarray(term.points, dtype=float) / xi - ctr0
         tpoly = SPoly(tp[:-1])
         ti = info.get(term.name)
         if ti is None:
